@@ -31,6 +31,10 @@ def dispatch(I, fr, callee, args):
 
 
 def named_const(I, text):
+    if text.endswith('REPLACEMENT_CHARACTER'):
+        return mk('char', 0xFFFD)
+    if re.search(r'(?:^|::)char::MAX$|impl char>::MAX$', text):
+        return mk('char', 0x10FFFF)
     m = re.match(r'^<(u8|u16|u32|u64|usize) as bitflags::Bits>::(EMPTY|ALL)$', text)
     if m:
         return mk(m.group(1), 0 if m.group(2) == 'EMPTY' else -1)
